@@ -71,6 +71,10 @@ MANY = [
     ("250 successive applications", "*=0x008000\n.macro one(v) {\n.db v\n}\n" + "".join(f"one({i})\n" for i in range(250)), bytes(range(250))),
     ("a 150-iteration loop applying a macro", "*=0x008000\n.macro one(v) {\n.db v\n}\n.for i := 0, 150 {\none(i)\n}\n", bytes(range(150))),
     ("an application after 220 blocks", "*=0x008000\n.macro one(v) {\n.db v\n}\n" + "{\nnop\n}\n" * 220 + "one(7)\n", b"\xea" * 220 + b"\x07"),
+    ("a named scope in the body, its label referenced qualified, two applications", "*=0x008000\n.macro rec(v) {\n.db v\n.scope s {\nl:\n}\n.dw s.l\n}\nrec(1)\nrec(2)\n{\nrec(3)\n}\n",
+     bytes.fromhex("010180" "020480" "030780")),
+    ("a block argument applying a macro whose block parameter has the same name", "*=0x008000\n.macro w(code) {\nphp\n{{ code }}\nplp\n}\n.macro v(code) {\npha\n{{ code }}\npla\n}\nw({\nv({\nnop\n})\n})\nw({\nw({\ninx\n})\n})\n",
+     bytes.fromhex("0848ea6828" "0808e82828")),
     ("recursion of depth 120 ended by .if", "*=0x008000\n.macro down(n) {\n.db n\n.if n {\ndown(n - 1)\n}\n}\ndown(120)\n", bytes(range(120, -1, -1))),
 ]
 
